@@ -120,6 +120,15 @@ theorem restart_crash_window (f : File β) (d : List β) (docs : List (List (Lis
     img <+: (docs.getD (nFlush pre) []).flatten :=
   (restartOps_cut docs f d hc pre hpre img himg).2 hw
 
+/-- **reopened_files_keep_content**: a new simulation that opens its files in mode `'a'` finds them as the previous run
+    left them, and until its own first observer call a crash leaves exactly that content — in particular the previous
+    run's restart document stays loadable; in mode `'w'` the files start empty. -/
+theorem reopened_files_keep_content (existing : List β) :
+    Clean (openFile .a existing) existing ∧ crashCuts (openFile .a existing) = [existing] ∧
+    Clean (openFile .w existing) ([] : List β) ∧ crashCuts (openFile .w existing) = [([] : List β)] := by
+  refine ⟨clean_open_a existing, ?_, clean_open_w existing, ?_⟩ <;>
+    simp [crashCuts, openFile, landing, writeAt]
+
 /-- **restart_crash_loadable is false for the coded protocol.** Full statement that fails:
     `∀ f d docs pre img, Clean f d → pre <+: restartOps docs → 1 ≤ nFlush pre → img ∈ crashCuts (run pre f) →
        ∃ doc ∈ docs, img = doc.flatten`.
